@@ -220,7 +220,11 @@ class ArithFunctions(InterpreterFunctions):
         (lhs, rhs) = args
         assert rhs >= 0
         assert isa(op.result.type, builtin.IndexType | builtin.IntegerType)
-        return (to_signed(lhs << rhs, _int_bitwidth(interpreter, op.result.type)),)
+        bitwidth = _int_bitwidth(interpreter, op.result.type)
+        if rhs >= bitwidth:
+            # Every bit is shifted out; do not materialise `lhs << rhs` for huge amounts
+            return (0,)
+        return (to_signed(lhs << rhs, bitwidth),)
 
     @impl(arith.ShRSIOp)
     def run_shrsi(
